@@ -16,6 +16,14 @@ def _opt(x):
     return [False, 0, 0] if x is None else [True, x.start._days_since_epoch, x.end._days_since_epoch]
 
 
+def _len(x):
+    """The length the object reports (asked directly: the len() builtin itself refuses a negative answer with its own exception)."""
+    try:
+        return x.__len__()
+    except Exception:  # noqa: BLE001
+        return -10**9
+
+
 def _try(fn):
     try:
         fn()
@@ -75,7 +83,7 @@ def gen(args) -> list:
                 it = [s1, e1, e1 - s1 + 1, True]
             else:
                 it = [days[0] if days else -1, days[-1] if days else -1, len(days), all(y == x + 1 for x, y in zip(days, days[1:]))]
-            evs.append({"op": "di_pair", "cal": cal.id, "a": [s1, e1], "b": [s2, e2], "len_a": len(a), "len_b": len(b),
+            evs.append({"op": "di_pair", "cal": cal.id, "a": [s1, e1], "b": [s2, e2], "len_a": _len(a), "len_b": _len(b),
                         "a_contains_b": (b in a) and a.contains(b), "b_contains_a": a in b,
                         "inter": _opt(a & b), "inter_rev": _opt(b.intersection(a)), "union": _opt(a | b), "union_rev": _opt(b.union(a)),
                         "mem": mem, "iter": it, "eq": a == b and a.equals(b) and not (a != b), "hash_eq": hash(a) == hash(b)})
@@ -147,13 +155,26 @@ def gen(args) -> list:
         else:
             cal = rnd.choice(cals)
             y = rnd.choice([cal.min_year, cal.max_year, rnd.randint(cal.min_year, cal.max_year)])
-            m = rnd.randint(1, cal.get_months_in_year(y))
+            nm = cal.get_months_in_year(y)
+            m = rnd.choice([rnd.randint(1, nm), rnd.randint(1, nm), nm, max(1, nm - 1), min(nm, 2), min(nm, 6), min(nm, 12)])
             try:
                 di = YearMonth(year=y, month=m, calendar=cal).to_date_interval()
             except Exception:  # noqa: BLE001
                 continue
-            evs.append({"op": "ym", "cal": cal.id, "y": y, "m": m, "s": di.start._days_since_epoch, "e": di.end._days_since_epoch,
-                        "first": LocalDate(y, m, 1, cal)._days_since_epoch, "dim": cal.get_days_in_month(y, m)})
+            ev = {"op": "ym", "cal": cal.id, "y": y, "m": m, "s": di.start._days_since_epoch, "e": di.end._days_since_epoch,
+                  "first": LocalDate(y, m, 1, cal)._days_since_epoch, "dim": cal.get_days_in_month(y, m)}
+            try:
+                # the month that follows in time (month numbers need not follow the order of the months: Hebrew scriptural numbering
+                # starts the year at month 7): the one holding the day after this month's last day, as the day line says
+                after = ctor(days_since_epoch=LocalDate(y, m, 1, cal)._days_since_epoch + cal.get_days_in_month(y, m), calendar=cal) \
+                    if LocalDate(y, m, 1, cal)._days_since_epoch + cal.get_days_in_month(y, m) <= cal._max_days else None
+                if after is not None:
+                    nxt = YearMonth(year=after.year, month=after.month, calendar=cal).to_date_interval()
+                    ev["next_s"] = nxt.start._days_since_epoch
+                    ev["union_defined"] = (di | nxt) is not None and _len(di | nxt) == _len(di) + _len(nxt)
+            except Exception:  # noqa: BLE001
+                ev["next_s"], ev["union_defined"] = -10**9, False
+            evs.append(ev)
     return evs
 
 
